@@ -334,7 +334,7 @@ def run_oracle(profile, cases, tag, stall_s=20.0):
 HEADER = ("From RTA.Model Require Import Base Arrival Wcet Demand Supply FixedPoint Analyses Ros2 Eval.\n"
           "Set Printing Width 1000000. Set Printing Depth 100000000.\n")
 
-def run_model(cases, tag, per_case_timeout=30, dbg=True, shards=NCPU, extra_header=""):
+def run_model(cases, tag, per_case_timeout=20, dbg=True, shards=NCPU, extra_header=""):
     """cases: list of (id, query-ast) -> {id: canonical result}; missing id = Coq timeout/error"""
     os.makedirs(WORK, exist_ok=True)
     shards = max(1, min(shards, (len(cases) + 7) // 8))
@@ -344,7 +344,8 @@ def run_model(cases, tag, per_case_timeout=30, dbg=True, shards=NCPU, extra_head
         with open(path, "w") as f:
             f.write(HEADER + extra_header)
             for i, q in cases[s::shards]:
-                f.write("Timeout %d Eval vm_compute in (%d, %s).\n" % (per_case_timeout, i, to_coq(q, dbg)))
+                d = dbg(i, q) if callable(dbg) else dbg
+                f.write("Timeout %d Eval vm_compute in (%d, %s).\n" % (per_case_timeout, i, to_coq(q, d)))
         files.append(path)
     procs = []
     for path in files:
